@@ -24,13 +24,19 @@ const vDocTail = `<w:sectPr><w:pgSz w:w="12240" w:h="15840"/></w:sectPr></w:body
 // symbols inside each run as written, runs and hyperlinks as interleaved.
 //
 //symgo:harness prop=C16 kernel=K4-docx-inline-order
-//symgo:desc word/document.xml text built by the harness and put through the three steps of parseDocument (xml.Unmarshal - real tokeniser, reflection walk modelled and validated natively -, parseBodyElementsInOrder, processElementsInOrder; the zip read is left out); one body paragraph with 1..3 pieces, each a plain run, a run "tab then text", a run "text, line break, text", a hyperlink holding a run, or a run "symbol then text" (enumerated): the parsed paragraph's Text is the pieces' texts in source order
+//symgo:desc word/document.xml text built by the harness and put through the three steps of parseDocument (xml.Unmarshal - real tokeniser, reflection walk modelled and validated natively -, parseBodyElementsInOrder, processElementsInOrder; the zip read is left out); one body paragraph with 1..3 pieces, each a plain run, a run "tab then text", a run "text, line break, text", a run "text, carriage return (w:cr), text", a run "text, non-breaking hyphen (w:noBreakHyphen), text", a hyperlink holding a run, or a run "symbol then text" (enumerated): the parsed paragraph's Text is the pieces' texts in source order
 func H_C16_docx_inline_order() {
 	n := vAnyIntIn(1, 3)
 	body, want := "<w:p>", ""
 	for i := 0; i < n; i++ {
 		w := "w" + string(rune('A'+i))
-		switch vAnyIntIn(0, 4) {
+		switch vAnyIntIn(0, 6) {
+		case 5:
+			body += `<w:r><w:t>` + w + `</w:t><w:cr/><w:t>y</w:t></w:r>`
+			want += w + "\ny"
+		case 6:
+			body += `<w:r><w:t>` + w + `</w:t><w:noBreakHyphen/><w:t>z</w:t></w:r>`
+			want += w + "\u2011z"
 		case 0:
 			body += `<w:r><w:t xml:space="preserve">` + w + ` </w:t></w:r>`
 			want += w + " "
